@@ -33,7 +33,7 @@ ASSUMPTIONS = [
 ]
 NOT_REACHED = ["non-linear grids for Savitzky-Golay (refused by the code)", "negative frequencies",
                "grids longer than 65537 bins"]
-BUDGET = {"quick": dict(cases=1200, seconds=55, shards=4),
+BUDGET = {"quick": dict(cases=3000, seconds=55, shards=4),
           "thorough": dict(cases=600000, seconds=420, shards=16)}
 REQUIRED = ["mon:model-equal", "mon:compiled-equals-interpreted", "mon:constant-reproduced",
             "mon:bounded-by-contributing", "mon:linear", "mon:row-independent", "mon:sg-cubic-exact",
